@@ -523,10 +523,6 @@ class BaseNetQASMConnection(abc.ABC):
 
         subroutine = self._builder.subrt_compile_subroutine(protosubroutine)
 
-        # Like after a flush: the compiled operations are no longer pending,
-        # so their arrays and registers should not be declared and returned again.
-        self._builder._reset()
-
         return subroutine
 
     def commit_protosubroutine(
@@ -548,11 +544,6 @@ class BaseNetQASMConnection(abc.ABC):
         self._logger.debug(f"Flushing compiled subroutine:\n{subroutine}")
 
         subroutine.instantiate(self.app_id)
-
-        # The compiled operations are no longer pending. Reset before sending (as
-        # `compile()` does): operations that a completion callback adds while the
-        # subroutine is being committed belong to the next subroutine.
-        self._builder._reset()
 
         # Commit the subroutine to the quantum device
         self.commit_subroutine(subroutine, block, callback)
